@@ -6,6 +6,7 @@ mod util;
 mod words;
 mod fsm;
 mod link;
+mod prep;
 
 fn main() {
     let args: Vec<String> = std::env::args().collect();
@@ -30,6 +31,7 @@ fn main() {
             "words" => words::run_case(line),
             "fsm" => fsm::run_case(line),
             "link" => link::run_case(line),
+            "prep" => prep::run_case(line),
             "dispatch" => link::run_dispatch_case(line),
             _ => {
                 eprintln!("unknown stream {stream}");
